@@ -283,7 +283,9 @@ func (subjectVerifier) VerifyParsedClientCertificate(chain []*x509.Certificate) 
 	return cppki.ExtractIA(chain[0].Subject)
 }
 
-func mkCert(cn string, ia *addr.IA) *x509.Certificate {
+func mkCert(cn string, ia *addr.IA) *x509.Certificate { return mkCertSerial(cn, ia, 1) }
+
+func mkCertSerial(cn string, ia *addr.IA, serial int64) *x509.Certificate {
 	key, err := ecdsa.GenerateKey(elliptic.P256(), rand.Reader)
 	must(err)
 	subj := pkix.Name{CommonName: cn}
@@ -291,7 +293,7 @@ func mkCert(cn string, ia *addr.IA) *x509.Certificate {
 		subj.ExtraNames = []pkix.AttributeTypeAndValue{{Type: cppki.OIDNameIA, Value: ia.String()}}
 	}
 	tmpl := &x509.Certificate{
-		SerialNumber: big.NewInt(1), Subject: subj,
+		SerialNumber: big.NewInt(serial), Subject: subj,
 		NotBefore: time.Unix(1700000000, 0), NotAfter: time.Unix(1900000000, 0),
 		KeyUsage: x509.KeyUsageDigitalSignature, ExtKeyUsage: []x509.ExtKeyUsage{x509.ExtKeyUsageClientAuth},
 	}
@@ -303,10 +305,11 @@ func mkCert(cn string, ia *addr.IA) *x509.Certificate {
 }
 
 var (
-	goodCerts  []*x509.Certificate // one per ias entry
-	badCerts   []*x509.Certificate // untrusted, one per ias entry
-	noIACert   *x509.Certificate
-	caLikeCert *x509.Certificate
+	goodCerts   []*x509.Certificate // one per ias entry, all with serial number 1
+	serialCerts []*x509.Certificate // one per ias entry, distinct serial numbers
+	badCerts    []*x509.Certificate // untrusted, one per ias entry
+	noIACert    *x509.Certificate
+	caLikeCert  *x509.Certificate
 )
 
 func initCerts() {
@@ -314,6 +317,10 @@ func initCerts() {
 		ia := ias[i]
 		goodCerts = append(goodCerts, mkCert("as "+ia.String(), &ia))
 		badCerts = append(badCerts, mkCert("untrusted", &ia))
+	}
+	for i := range ias {
+		ia := ias[i]
+		serialCerts = append(serialCerts, mkCertSerial("as "+ia.String(), &ia, int64(100+i)))
 	}
 	noIACert = mkCert("no ia", nil)
 	caLikeCert = mkCert("ca", &ias[2])
@@ -436,6 +443,15 @@ func serve(ep int, local addr.IA, allowed []allowedEntry, p peerSpec, a authSpec
 	eng := &recEngine{}
 	srv := &dkgrpc.Server{LocalIA: local, ClientCertificateVerifier: subjectVerifier{}, Engine: eng,
 		AllowedSVHostProto: allowedMap(allowed)}
+	return serveOn(srv, eng, ep, p, a, q)
+}
+
+// serveOn runs one request against an existing (possibly long-lived) Server whose
+// engine is eng.
+func serveOn(srv *dkgrpc.Server, eng *recEngine, ep int, p peerSpec, a authSpec, q reqSpec) (
+	*callRec, string) {
+
+	eng.calls = nil
 	ctx := context.Background()
 	if p.Kind != 0 {
 		ctx = peer.NewContext(ctx, &peer.Peer{Addr: p.addr(), AuthInfo: a.info()})
@@ -522,7 +538,9 @@ func main() {
 		"protocol x local-AS position x requester form (IPv4, IPv4-in-IPv6, IPv6, other host, nil, " +
 		"non-TCP) x named-host spelling (exhaustive) + random (incl. odd-length IPs, junk host strings); allowed-host sets; " +
 		"certificate outcomes; the six Server methods with mostly legitimate requests and single-field " +
-		"deviations; non-trivial = the request reached the address/AS/allowed-set decision " +
+		"deviations; sequences of 4-7 requests on ONE Server (level-1 requests whose certificates share a serial " +
+		"number across ASes / with unverifiable chains / repeated / distinct serials; all six RPCs mixed) against " +
+		"the stateless model; non-trivial = the request reached the address/AS/allowed-set decision " +
 		"(requester present with TCP address, valid timestamp, protocol not generic where that is checked first)"
 	rng := vgen.NewRand(run.Seed)
 	initCerts()
@@ -669,7 +687,7 @@ func main() {
 	}
 
 	// 5. the Server methods
-	ns := run.Count(200, 15000)
+	ns := run.Count(150, 15000)
 	for ep := 0; ep < 6; ep++ {
 		for i := 0; i < ns; i++ {
 			r := rng.Fork(uint64(1000000*(ep+1) + i))
@@ -730,6 +748,126 @@ func main() {
 			} else if bad != "" {
 				run.Violate(id, bad, desc)
 			}
+		}
+	}
+	// 6. sequences of requests on ONE long-lived Server: every response must be the one
+	// its own request determines (no state may leak from earlier requests)
+	nq := run.Count(160, 8000)
+	for i := 0; i < nq; i++ {
+		r := rng.Fork(uint64(9000000 + i))
+		local := vgen.Pick(r, ias...)
+		me := vgen.Pick(r, hostPool...)
+		es := genAllowed(r, me, drkey.SCMP)
+		type step struct {
+			ep int
+			p  peerSpec
+			a  authSpec
+			q  reqSpec
+		}
+		var steps []step
+		tls := func(c ...*x509.Certificate) authSpec { return authSpec{Kind: 2, Chain: c} }
+		good := func(k int, c *x509.Certificate) authSpec {
+			ia := ias[k]
+			return authSpec{Kind: 2, Chain: []*x509.Certificate{c}, Verified: &ia}
+		}
+		lvl1 := func(a authSpec) step {
+			return step{0, genPeer(r, me), a, reqSpec{Proto: vgen.Pick(r, int32(0), int32(1), int32(1), int32(7))}}
+		}
+		if i%2 == 0 {
+			// level-1 requests with colliding / repeated / distinct certificate serial numbers
+			x, y := r.Intn(len(ias)), r.Intn(len(ias))
+			steps = append(steps, lvl1(good(x, goodCerts[x])))
+			n := r.Range(3, 6)
+			for j := 0; j < n; j++ {
+				switch r.Intn(7) {
+				case 0: // same serial, other AS
+					steps = append(steps, lvl1(good(y, goodCerts[y])))
+				case 1: // same serial, chain that does not verify
+					steps = append(steps, lvl1(tls(badCerts[r.Intn(len(ias))], caLikeCert)))
+				case 2: // same serial, certificate without ISD-AS
+					steps = append(steps, lvl1(tls(noIACert)))
+				case 3: // the same certificate again
+					steps = append(steps, lvl1(good(x, goodCerts[x])))
+				case 4: // distinct serial numbers
+					k := r.Intn(len(ias))
+					steps = append(steps, lvl1(good(k, serialCerts[k])))
+				case 5: // no certificate / no TLS
+					steps = append(steps, lvl1(authSpec{Kind: vgen.Pick(r, 0, 1, 2)}))
+				default:
+					k := r.Intn(len(ias))
+					steps = append(steps, lvl1(good(k, goodCerts[k])))
+				}
+			}
+		} else {
+			// all RPCs mixed: an accepted request followed by ones that must be refused, etc.
+			n := r.Range(4, 7)
+			for j := 0; j < n; j++ {
+				ep := r.Intn(6)
+				other := vgen.Pick(r, ias...)
+				q := reqSpec{Proto: genProto(r), Src: other, Dst: local}
+				if ep == 3 || ((ep == 1 || ep == 4) && r.Bool()) {
+					q.Src, q.Dst = local, other
+				}
+				q.SrcHost, q.DstHost = genHostString(r, me), genHostString(r, me)
+				if r.Chance(1, 6) {
+					q.Src = vgen.Pick(r, ias...)
+				}
+				if r.Chance(1, 6) {
+					q.Dst = vgen.Pick(r, ias...)
+				}
+				if r.Chance(1, 12) {
+					q.TS = r.Range(1, 3)
+				}
+				steps = append(steps, step{ep, genPeer(r, me), genAuth(r), q})
+			}
+		}
+		if !run.Want() {
+			run.Skip()
+			continue
+		}
+		eng := &recEngine{}
+		srv := &dkgrpc.Server{LocalIA: local, ClientCertificateVerifier: subjectVerifier{}, Engine: eng,
+			AllowedSVHostProto: allowedMap(es)}
+		var terms []string
+		var descs []any
+		var bads []string
+		servedN := 0
+		for _, st := range steps {
+			var c *callRec
+			var bad string
+			panicked, msg := vgen.Recover(func() { c, bad = serveOn(srv, eng, st.ep, st.p, st.a, st.q) })
+			if panicked {
+				bad = "panic: " + msg
+			}
+			impl := "None"
+			d := map[string]any{"endpoint": epNames[st.ep], "peer": st.p.String(), "auth": st.a.term(),
+				"proto": st.q.Proto, "ts": st.q.TS, "src": st.q.Src.String(), "dst": st.q.Dst.String(),
+				"src_host": st.q.SrcHost, "dst_host": st.q.DstHost}
+			if st.a.Kind == 2 && len(st.a.Chain) > 0 {
+				d["cert"] = fmt.Sprintf("serial %v subject %v", st.a.Chain[0].SerialNumber, st.a.Chain[0].Subject)
+			}
+			if c != nil {
+				impl = vgen.Opt(c.term(), true)
+				d["call"] = fmt.Sprintf("%+v", *c)
+				servedN++
+			}
+			if bad != "" {
+				bads = append(bads, bad)
+			}
+			descs = append(descs, d)
+			terms = append(terms, "(DRKeyACL."+epNames[st.ep]+", "+st.p.term()+", "+st.a.term()+", "+
+				st.q.term()+", "+impl+")")
+		}
+		kind := "lvl1"
+		if i%2 == 1 {
+			kind = "mixed"
+		}
+		run.Tally(fmt.Sprintf("seq:%s-len%d", kind, len(steps)))
+		desc := map[string]any{"local": local.String(), "allowed": fmt.Sprint(es), "steps": descs}
+		id := run.Add("sequence", vgen.App("DRKeyACL.CSeq", vgen.N(uint64(local)), allowedTerm(es),
+			vgen.List(terms)), fmt.Sprint(local, es, terms), servedN > 0, desc)
+		for _, b := range bads {
+			run.Violate(id, b, desc)
 		}
 	}
 	run.Finish()
